@@ -20,7 +20,16 @@ for f in sorted(known, key=lambda f: f["property"]):
 known_table = "\n".join(t)
 
 rows = ["| id | property | change | needs to manifest | caught | how |", "|---|---|---|---|---|---|"]
+hrows = ["| id | checks run | what was refactored | outcome |", "|---|---|---|---|"]
+for m in sorted((V / "seeded").glob("harmless-*/meta.json")):
+    d = json.loads(m.read_text())
+    silent = d.get("silent", "outcome" in d and not any(str(o).startswith("VIOLATION") for o in d.get("outcome", [])))
+    res = "silent (all proofs re-checked, 0 mismatches)" if silent else "**alarm: no-failing-input-found** (extractor refuses the new shape)"
+    hrows.append(f"| {d['id']} | {d['property'].replace(' (negative control)','')} | {d.get('change','')[:160]} | {res} |")
+harmless_table = "\n".join(hrows)
 for m in sorted((V / "seeded").glob("*/meta.json")):
+    if m.parent.name.startswith("harmless-"):
+        continue
     d = json.loads(m.read_text())
     out = d.get("outcome")
     if isinstance(out, list):
@@ -34,6 +43,6 @@ for m in sorted((V / "seeded").glob("*/meta.json")):
     rows.append(f"| {d['id']} | {d['property']} | {d['change']} | {d.get('needs_to_manifest', d.get('expected',''))} | {caught} | {str(out)[:260]} |")
 seeded_table = "\n".join(rows)
 
-text = text.replace("<!--FIXED_TABLE-->", fixed_table).replace("<!--KNOWN_TABLE-->", known_table).replace("<!--SEEDED_TABLE-->", seeded_table)
+text = text.replace("<!--FIXED_TABLE-->", fixed_table).replace("<!--KNOWN_TABLE-->", known_table).replace("<!--SEEDED_TABLE-->", seeded_table).replace("<!--HARMLESS_TABLE-->", harmless_table)
 (V / "DESIGN.md").write_text(text)
 print("DESIGN.md:", len(text.splitlines()), "lines;", len(fixed), "fixed,", len(known), "known,", len(rows) - 2, "seeded")
